@@ -195,13 +195,13 @@ def Prim.inDom (p : Prim) (v : Val) : Bool :=
       (.cons (.cons (.cons a (.cons (.int len) (.cons (.int wc) (.cons (.bits bs) .nil)))) .nil) .nil) =>
     Prim.maybeAnycastDom a && len == bs.length && bs.length ≤ 511 && -(2 ^ 31) ≤ wc && wc < 2 ^ 31
   | .accountStatus, .bytes bs =>
-    bs == Prim.strBytes "uninit" || bs == Prim.strBytes "frozen" || bs == Prim.strBytes "active"
-      || bs == Prim.strBytes "nonexist"
+    bs == Prim.s_uninit || bs == Prim.s_frozen || bs == Prim.s_active
+      || bs == Prim.s_nonexist
   | .accStatusChange, .bytes bs =>
-    bs == Prim.strBytes "acst_unchanged" || bs == Prim.strBytes "acst_frozen" || bs == Prim.strBytes "acst_deleted"
+    bs == Prim.s_acst_unchanged || bs == Prim.s_acst_frozen || bs == Prim.s_acst_deleted
   | .computeSkipReason, .bytes bs =>
-    bs == Prim.strBytes "cskip_no_state" || bs == Prim.strBytes "cskip_bad_state"
-      || bs == Prim.strBytes "cskip_no_gas" || bs == Prim.strBytes "cskip_suspended"
+    bs == Prim.s_cskip_no_state || bs == Prim.s_cskip_bad_state
+      || bs == Prim.s_cskip_no_gas || bs == Prim.s_cskip_suspended
   | .vmCellSlice, .cons (.cons (.cell c) .nil) (.cons (.int a) (.cons (.int b) (.cons (.int x) (.cons (.int y) .nil)))) =>
     cellOk c && 0 ≤ a && a ≤ b && 0 ≤ x && x ≤ y
   | _, _ => false
